@@ -109,12 +109,15 @@ def hyp_settings(n, tier, shrink=True):
     )
 
 
-def campaign(strategy, check, n, seed, stats: Stats, tier='quick', shrink=True, max_findings=1):
+def campaign(strategy, check, n, seed, stats: Stats, tier='quick', shrink=None, max_findings=1):
     """Run `check(case, stats)` over `n` cases drawn from `strategy`.
 
     `check` raises Violation to report; the shrunk (minimal) failing case is recorded.  Cases must be
     JSON-able so that the replay file alone reproduces the failure without Hypothesis.
     """
+    if shrink is None:
+        # quick tier: report the first failing case as found (bounded time); thorough tier: shrink to a minimal case
+        shrink = (tier == 'thorough') or os.environ.get('TV_SHRINK') == '1'
     holder = {}
 
     @hypothesis.seed(seed)
